@@ -550,6 +550,14 @@ func liveExecute(lc *liveCase, timeout time.Duration) *liveResult {
 		}
 		res.answer = "stuck: " + what
 		if len(d) == 0 || len(u)+len(nd)+len(st) > 0 {
+			// evidence for the replay: where the sender's goroutines stand and what happened last
+			rig.mu.Lock()
+			evs := append([]string(nil), rig.events...)
+			rig.mu.Unlock()
+			if len(evs) > 15 {
+				evs = evs[len(evs)-15:]
+			}
+			what += " | last events: " + strings.Join(evs, "; ") + " | sender goroutines: " + strings.ReplaceAll(stopBrokerStacks(), "\n", " / ")
 			res.failures = append(res.failures, fmt.Sprintf("stuck: after %.1f s (fault plan finite, sources unchanged) %s", res.dur.Seconds(), what))
 		}
 	}
